@@ -16,6 +16,7 @@ evidence file; a drift from the expected list is printed as a NOTE.
 import ast
 import glob
 import os
+import sys
 from collections import OrderedDict
 
 from vlib.api import *
@@ -31,10 +32,11 @@ FUNCTIONS = ["peltool.parsePEL and everything below it", "module-level state of 
 
 PAIRS = ["lp", "src-words", "callouts", "compid-HO", "compid-OH", "registry", "ud-plugin", "ud-fail:2", "ud-fail:4", "ud-fail:6",
          "ud-fail:7", "src-fail:2", "src-fail:4", "callout-fail:4", "callout-fail:6", "callout-unknown", "damaged", "ilog-mex-nimitz",
-         "ilog-nimitz-mex", "trace-mex-nimitz", "hlog", "oe500"]
+         "ilog-nimitz-mex", "trace-mex-nimitz", "hlog", "oe500", "osrc-BC-BD", "osrc-BD-BC", "compid-lazy", "src-words-short"]
 HARNESSES = [
     {"fn": "h_tworun", "cases": PAIRS, "quick_cases": ["lp", "compid-HO", "registry", "ud-fail:6", "callout-fail:4", "callout-unknown",
-                                                     "ilog-mex-nimitz", "trace-mex-nimitz", "damaged"],
+                                                     "ilog-mex-nimitz", "trace-mex-nimitz", "damaged", "osrc-BC-BD", "compid-lazy",
+                                                     "src-words-short"],
      "timeout": {"quick": 120, "thorough": 400}},
     {"fn": "h_step", "cases": ["ud:%d" % b for b in (0, 2, 4, 6, 7)] + ["src:%d" % b for b in (0, 2, 4, 6)] + ["callout:%d" % b for b in (0, 4, 6)],
      "quick_cases": ["ud:0", "ud:6", "src:4", "callout:4"], "timeout": {"quick": 90, "thorough": 300}},
@@ -178,6 +180,29 @@ class env:
         return False
 
 
+class _lazy:
+    """stand-in for the component-name registry loader (pel_registry is not installed here): fills the table on first use"""
+    def __init__(self, table):
+        self.table = table
+
+    def __enter__(self):
+        if self.table is not None:
+            t = self.table
+
+            def loader():
+                if not comp_id.attemptedToParseCompIDs:
+                    comp_id.attemptedToParseCompIDs = True
+                    comp_id.componentIDs.update(t)
+            self.ctx = patched(comp_id, getAllCreatorsCompIDs=loader)
+            self.ctx.__enter__()
+        return self
+
+    def __exit__(self, *a):
+        if self.table is not None:
+            self.ctx.__exit__(*a)
+        return False
+
+
 def dec(data):
     cfg = Config()
     cfg.every_pel = True
@@ -249,6 +274,24 @@ def h_tworun() -> bool:
         first, second = (ord("H"), ord("O")) if case == "compid-HO" else (ord("O"), ord("H"))
         y = pb.PEL(pb.MT(comp=c), ph=dict(creator=first, comp=c), uh=dict(comp=c))
         x = pb.PEL(pb.MT(comp=c), ph=dict(creator=second, comp=c), uh=dict(comp=c))
+    elif case in ("osrc-BC-BD", "osrc-BD-BC"):
+        # BMC-created logs whose SRCs name the same component: a hostboot-type (BC..) and a BMC-type (BD..) reference code
+        w = sym_int("w", 0, 0xFFFFFFFF)
+        bc = pb.PEL(pb.SRC(ascii=b"BC8AE540", words=(0x020000F0, 1, 2, 3, 4, 5, 6, 7)))
+        bd = pb.PEL(pb.SRC(ascii=b"BD8DE510", words=(0x020000F0, w, 2, 3, 4, 5, 6, 7)))
+        y, x = (bc, bd) if case == "osrc-BC-BD" else (bd, bc)
+        imp.present = lambda n: bool(sym_not(str_eq(n, "srcparsers.bsrc.bsrc")))      # no hostboot SRC parser installed
+    elif case == "compid-lazy":
+        # the component-name table is loaded lazily on first use: the first log of the process is shown like any later one
+        cb = sym_bytes("c", 1)
+        c = from_be([0x20, cb[0]])
+        x = pb.PEL(pb.MT(comp=c), ph=dict(comp=c), uh=dict(comp=c))
+        y = pb.PEL(pb.MT(comp=0x1000), ph=dict(comp=0x1000))
+        lazy_table = {"O": {"2000": "bmc-logging", "2010": "bmc-state"}}
+    elif case == "src-words-short":
+        a = sym_int("a", 0, 0xFFFFFFFF)
+        x = pb.PEL(pb.SRC(words=(0x020000F0, 1, 2, 3, 4, 5, 6, 7), wc=5))
+        y = pb.PEL(pb.SRC(words=(0x020000F0, a, a, a, a, a, a, a), wc=9))
     elif case == "registry":
         ch = sym_int("ch", 0x30, 0x31)
         x = pb.PEL(pb.SRC(ascii=mkbytes(b"1100203", [ch], b" " * 24)))
@@ -297,6 +340,8 @@ def h_tworun() -> bool:
         a, b = sym_bytes("a", 2), sym_bytes("b", 2)
         x = pb.PEL(pb.UD(mkbytes(b"\x00\x12", a, b"\x00\x00\x00\x07"), sub=5, comp=0xE500))
         y = pb.PEL(pb.UD(mkbytes(b"\x00\x34", b, b"\x00\x00\x00\x09"), sub=5, comp=0xE500))
+    lazy = locals().get("lazy_table")
+    orig_streams = (sys.stdout, sys.stderr)
     saved_pels = srcmod.registry.pels
     if case == "registry":
         from harness.C03_src import FIXTURE_REGISTRY
@@ -304,11 +349,11 @@ def h_tworun() -> bool:
     try:
         # reference: x decoded first in a fresh process state
         fresh_state()
-        with env(None if real_plugins else imp) as e:
+        with env(None if real_plugins else imp) as e, _lazy(lazy):
             d1 = dec(x)
         # history: y (possibly failing) decoded first, then x - and x once more
         fresh_state()
-        with env(None if real_plugins else imp) as e:
+        with env(None if real_plugins else imp) as e, _lazy(lazy):
             if between is not None:
                 imp.behaviour = between
             d2 = dec(y)
@@ -320,7 +365,14 @@ def h_tworun() -> bool:
     finally:
         srcmod.registry.pels = saved_pels
     conds = [isinstance(d1, dict), doc_eq(d1, d3) if isinstance(d1, dict) and isinstance(d3, dict) else False,
-             doc_eq(d1, d4) if isinstance(d1, dict) and isinstance(d4, dict) else False]
+             doc_eq(d1, d4) if isinstance(d1, dict) and isinstance(d4, dict) else False,
+             # no decode leaves the interpreter's standard streams re-pointed
+             sys.stdout is orig_streams[0] and sys.stderr is orig_streams[1]]
+    sys.stdout, sys.stderr = orig_streams
+    if case in ("src-words-short", "src-fail", "src-words") and isinstance(d1, dict) and not real_plugins:
+        # what the SRC parser was handed for x is part of the outcome: words beyond the valid count are zero
+        calls = [c for c in imp.calls if c.kind == "SRC"]
+        conds.append(len(calls) >= 1)
     return verdict(sym_all(conds), obs={"first": d1, "third": d3, "second_kind": d2 if isinstance(d2, tuple) else "document"})
 
 
